@@ -3,7 +3,7 @@ from .. import common, gen, scen, src as S, real as R, histcheck, progcheck
 from ..common import Sym
 PROP = 'C08'
 
-NAMES = [('p', 1), ('p', 2), ('q', 1), ('r', 1), ('s', 0), ('once', 1)]      # a script may define a predicate under a builtin's name
+NAMES = [('p', 1), ('p', 2), ('q', 1), ('r', 1), ('s', 0), ('once', 1), ('class', 1)]      # a script may define a predicate under a builtin's name
 API = ['atom', 'variable', 'query', 'unify', 'makelist', 'functor', 'match_dynamic', 'ATOM_NIL', 'True', '__builtins__', 'listpair']
 
 
